@@ -238,9 +238,12 @@ class SymCtx:
 
     def check_eq(self, a, b, label, info=None):
         conds = []
+        rawpairs = []
         for idx, x, y in _flat_pairs(a, b):
             if idx == "shape":
                 return self.check(False, label, {"shape": (x, y)})
+            if alg.RAW[0] and (isinstance(x, Sx) or isinstance(y, Sx)):
+                rawpairs.append((alg.const(x), alg.const(y)))
             d = alg.const(x) - alg.const(y) if not isinstance(x, Sx) else x - y
             if not isinstance(d, Sx):
                 d = alg.const(d)
@@ -251,6 +254,8 @@ class SymCtx:
             if im:
                 conds.append(Cond("==", im))
         if not conds:
+            if rawpairs:
+                self.ex.raw_crosscheck(rawpairs, label)
             return self.check(True, label, info)
         return self.check(Cond("and", *conds) if len(conds) > 1 else conds[0], label, info)
 
